@@ -328,12 +328,8 @@ theorem gather_comp {α β : Type} (sh : List Nat) (f : List Nat → α) (g : α
 
 theorem gather_zip {α β γ : Type} (sh : List Nat) (f : List Nat → α) (g : List Nat → β)
     (op : α → β → γ) (v : View) :
-    gather sh (fun idx => op (f idx) (g idx)) v =
-      (match gather sh f v, gather sh g v with
-       | .ok x, .ok y => .ok ⟨y.shape, List.zipWith op x.data y.data⟩
-       | .error e, _ => .error e
-       | _, .error e => .error e) := by
-  unfold gather
+    gather sh (fun idx => op (f idx) (g idx)) v = zipRes op (gather sh f v) (gather sh g v) := by
+  unfold gather zipRes
   cases viewPoints sh v with
   | error e => rfl
   | ok sp =>
